@@ -535,18 +535,117 @@ func parents(root ast.Node) map[ast.Node]ast.Node {
 
 func within(pos token.Pos, n ast.Node) bool { return n.Pos() <= pos && pos < n.End() }
 
-// laterUses: how often the object handed to Put is mentioned after the Put, in program
-// order as far as syntax tells: textually later in the function, and, when the Put sits in
+// aliasExpr: does evaluating e yield (a view of) the memory of one of the objects in set?  Identifiers,
+// dereferences, slicings, indexings of slices of slices, parentheses, address-of, conversions written as
+// calls of a type are too rare here to matter; append(x, ..) may return x's array.
+func aliasExpr(e ast.Expr, set map[*ast.Object]bool) bool {
+	switch x := unparen(e).(type) {
+	case *ast.Ident:
+		return x.Obj != nil && set[x.Obj]
+	case *ast.StarExpr:
+		return aliasExpr(x.X, set)
+	case *ast.SliceExpr:
+		return aliasExpr(x.X, set)
+	case *ast.UnaryExpr:
+		return x.Op == token.AND && aliasExpr(x.X, set)
+	case *ast.CallExpr:
+		if f, ok := x.Fun.(*ast.Ident); ok && f.Name == "append" && len(x.Args) > 0 {
+			return aliasExpr(x.Args[0], set)
+		}
+	}
+	return false
+}
+
+// derived: the pooled object and every local variable assigned (a view of) its memory, transitively
+// (flow-insensitive: `buf = *tmpBuf`, `payload := buf[a:b]`, `data := buf[:i]`).
+func derived(d *ast.FuncDecl, root *ast.Object) map[*ast.Object]bool {
+	set := map[*ast.Object]bool{root: true}
+	for changed := true; changed; {
+		changed = false
+		ast.Inspect(d.Body, func(x ast.Node) bool {
+			switch a := x.(type) {
+			case *ast.AssignStmt:
+				if len(a.Lhs) == len(a.Rhs) {
+					for i, r := range a.Rhs {
+						if l, ok := a.Lhs[i].(*ast.Ident); ok && l.Obj != nil && !set[l.Obj] && aliasExpr(r, set) {
+							set[l.Obj] = true
+							changed = true
+						}
+					}
+				}
+			case *ast.ValueSpec:
+				if len(a.Names) == len(a.Values) {
+					for i, r := range a.Values {
+						if l := a.Names[i]; l.Obj != nil && !set[l.Obj] && aliasExpr(r, set) {
+							set[l.Obj] = true
+							changed = true
+						}
+					}
+				}
+			}
+			return true
+		})
+	}
+	return set
+}
+
+func mentions(n ast.Node, set map[*ast.Object]bool) bool {
+	found := false
+	ast.Inspect(n, func(x ast.Node) bool {
+		if u, ok := x.(*ast.Ident); ok && u.Obj != nil && set[u.Obj] {
+			found = true
+		}
+		return !found
+	})
+	return found
+}
+
+// laterUses: how often the object handed to Put - or a local variable that is a view of its memory - is
+// mentioned after the Put, in program order as far as syntax tells: textually later in the function
+// (a later call of a local function literal that mentions it counts), and, when the Put sits in
 // a loop that does not declare the variable, anywhere in that loop (next iteration) unless
-// the loop body first assigns the variable afresh.
+// the loop body first assigns the variable afresh.  A deferred Put runs before the caller sees the
+// results: every return statement that hands out the object or a view of it is a use after the Put.
 func (p *pkg) laterUses(d *ast.FuncDecl, put poolPut) (variable string, n int) {
 	arg := unparen(put.call.Args[0])
 	variable = types.ExprString(arg)
+	id, isID := arg.(*ast.Ident)
 	if put.deferred {
-		return variable, 0
+		if !isID || id.Obj == nil {
+			return variable, 0
+		}
+		set := derived(d, id.Obj)
+		named := false
+		if d.Type.Results != nil {
+			for _, f := range d.Type.Results.List {
+				for _, nm := range f.Names {
+					if nm.Obj != nil && set[nm.Obj] {
+						named = true
+					}
+				}
+			}
+		}
+		ast.Inspect(d.Body, func(x ast.Node) bool {
+			if _, ok := x.(*ast.FuncLit); ok {
+				return false
+			}
+			if r, ok := x.(*ast.ReturnStmt); ok && r.Pos() >= put.call.End() {
+				// (arguments of a call inside the return statement are used before the deferred Put runs)
+				hands := len(r.Results) == 0 && named
+				for _, e := range r.Results {
+					if aliasExpr(e, set) {
+						hands = true
+					}
+				}
+				if hands {
+					n++
+				}
+			}
+			return true
+		})
+		return variable, n
 	}
 	par := parents(d.Body)
-	id, isID := arg.(*ast.Ident)
 	if !isID || id.Obj == nil {
 		text := variable
 		ast.Inspect(d.Body, func(x ast.Node) bool {
@@ -558,6 +657,21 @@ func (p *pkg) laterUses(d *ast.FuncDecl, put poolPut) (variable string, n int) {
 		})
 		return
 	}
+	set := derived(d, id.Obj)
+	// local function literals that mention the object or a view of it
+	lits := map[*ast.Object]bool{}
+	ast.Inspect(d.Body, func(x ast.Node) bool {
+		if a, ok := x.(*ast.AssignStmt); ok && len(a.Lhs) == len(a.Rhs) {
+			for i, r := range a.Rhs {
+				if fl, ok := r.(*ast.FuncLit); ok {
+					if l, ok := a.Lhs[i].(*ast.Ident); ok && l.Obj != nil && mentions(fl.Body, set) {
+						lits[l.Obj] = true
+					}
+				}
+			}
+		}
+		return true
+	})
 	var uses []*ast.Ident
 	ast.Inspect(d.Body, func(x ast.Node) bool {
 		if u, ok := x.(*ast.Ident); ok && u.Obj == id.Obj && u != id {
@@ -570,6 +684,17 @@ func (p *pkg) laterUses(d *ast.FuncDecl, put poolPut) (variable string, n int) {
 			n++
 		}
 	}
+	// views of the object, and calls of literals that mention it, after the Put
+	ast.Inspect(d.Body, func(x ast.Node) bool {
+		if u, ok := x.(*ast.Ident); ok && u.Obj != nil && u.Obj != id.Obj && u.Pos() >= put.call.End() {
+			if set[u.Obj] {
+				n++
+			} else if lits[u.Obj] {
+				n++
+			}
+		}
+		return true
+	})
 	// enclosing loops that do not contain the declaration
 	for x := par[put.call]; x != nil; x = par[x] {
 		var body *ast.BlockStmt
